@@ -21,8 +21,10 @@ Proved here:
 * `C02_results_ignore_layout`: results and logical state of every call are those of the logical
   model, whatever the allocation state — in particular the same before and after a reopen
   ("continuing on the reopened file behaves the same");
-* `C02_le_roundtrip`: little-endian fields written by the renderer are read back by the reader
-  model (`Raw.leN`), the codec step every header and directory field goes through.
+* `C02_le_roundtrip`, `C02_entry_codec`, `Phys.header_field_roundtrip`: the renderer of a directory
+  entry / of the header is a sequence of little-endian fields (`renderEntry_eq`, `renderHeader_eq`)
+  and every field of such a sequence is read back exactly by the reader model's primitive
+  `Raw.leN` at the offset where it starts, whatever is appended later.
 That the rendered image reopens (both modes) to the logical state is decided per snapshot: the
 check feeds model images and real images to `Raw.openImg` and to the library.
 -/
